@@ -505,6 +505,7 @@ type Clause struct {
 
 type LoopSpec struct {
 	Index      int
+	FreshOnly  bool
 	Invariants []*Clause
 	LockInvariants []*Clause
 	Modifies   []*Clause
@@ -583,7 +584,7 @@ func NewSpecSet() *SpecSet {
 
 var clauseKeywords = map[string]bool{"requires": true, "ensures": true, "modifies": true, "pure": true, "trusted": true, "lemma": true,
 	"loop": true, "invariant": true, "decreases": true, "callspec": true, "observe": true, "replay": true, "prop": true, "func": true,
-	"sort": true, "fun": true, "ghost": true, "axiom": true, "define": true, "inline": true, "noinline": true, "guarded": true, "flag": true, "loopmodifies": true, "lockrequires": true, "lockensures": true, "lockinvariant": true, "witness": true}
+	"sort": true, "fun": true, "ghost": true, "axiom": true, "define": true, "inline": true, "noinline": true, "guarded": true, "flag": true, "loopmodifies": true, "lockrequires": true, "lockensures": true, "lockinvariant": true, "witness": true, "loopfresh": true}
 
 // ParseSpecLines parses the //@ lines of one package (pkgPath is used for type resolution).
 func (ss *SpecSet) ParseSpecLines(lines []SpecLine, pkgPath string, keyPrefix string) error {
@@ -724,6 +725,11 @@ func (ss *SpecSet) ParseSpecLines(lines []SpecLine, pkgPath string, keyPrefix st
 				}
 			case "trusted":
 				cur.Trusted = true
+			case "loopfresh":
+				if curLoop == nil {
+					return fmt.Errorf("%s:%d: loopfresh outside loop", it.src.File, it.src.Line)
+				}
+				curLoop.FreshOnly = true
 			case "witness":
 				// witness name(S1, S2) S : a fresh function symbol per application (assumed contracts only)
 				i := strings.Index(it.rest, "(")
